@@ -121,28 +121,38 @@ Section OnceProofs.
 
   (* ---- the invariant ---- *)
 
+  Notation zeros := (repeat zero arity).
+  Notation outcome_tuple := (@outcome_tuple V zero arity).
+  Definition nw (e : event V) : Prop := ~ is_write e.
+
   Definition thread_ok (o : ostate) (R : list V) (t : tid) (th : thread V) : Prop :=
     match th_pc th with
     | PIdle | PEnter _ => True
     | PRun _ _ => o = Running t
     | PWrite res i => o = Running t /\ i <= arity /\ forall j, j < i -> nth j R zero = nth j res zero
     | PRead acc => o = ODone /\ acc = firstn (length acc) R
+    | PDead => o = ODone
     end /\ (o <> ODone -> th_rets th = []) /\ Forall (fun r => r = R) (th_rets th).
+
+  (* what the pc of the thread that owns the Once says about the trace *)
+  Definition run_pc (w : tid) (f : ufun V) (R : list V) (tr : list (event V)) (p : pc V) : Prop :=
+    match p with
+    | PRun f' _ => f' = f /\ fins tr = [] /\ R = zeros /\ Forall nw tr
+    | PWrite res _ => res = f_res f /\ fins tr = [(w, res)] /\ f_aborts f = false
+    | _ => False
+    end.
 
   Definition trace_ok (o : ostate) (R : list V) (ths : list (thread V)) (tr : list (event V)) : Prop :=
     match o with
-    | NotStarted => Forall is_inv tr
+    | NotStarted => Forall is_inv tr /\ R = zeros
     | Running w =>
-        Forall pre_ev tr /\ exists f th, starts tr = [(w, f)] /\ nth_error ths w = Some th /\
-          match th_pc th with
-          | PRun f' _ => f' = f /\ fins tr = []
-          | PWrite res _ => res = f_res f /\ fins tr = [(w, res)]
-          | _ => False
-          end
+        Forall pre_ev tr /\ exists f th, starts tr = [(w, f)] /\ nth_error ths w = Some th /\ run_pc w f R tr (th_pc th)
     | ODone =>
-        exists post pre w f, tr = post ++ EDone w :: pre /\ Forall post_ev post /\ Forall pre_ev pre /\
-          starts pre = [(w, f)] /\ fins pre = [(w, f_res f)] /\ R = tuple (f_res f) /\
-          forall t r, In (ERet t r) post -> r = R
+        exists post pre w f e, tr = post ++ e :: pre /\ Forall post_ev post /\ Forall pre_ev pre /\
+          starts pre = [(w, f)] /\ R = outcome_tuple f /\ (forall t r, In (ERet t r) post -> r = R) /\
+          ((e = EDone w /\ f_aborts f = false /\ fins pre = [(w, f_res f)]) \/
+           (e = EAbort w /\ f_aborts f = true /\ fins pre = [] /\ Forall nw pre /\
+            exists th, nth_error ths w = Some th /\ th_pc th = PDead))
     end.
 
   Record Inv (c : config V) : Prop := {
@@ -172,7 +182,7 @@ Section OnceProofs.
     - apply repeat_length.
     - intros t th H. apply nth_error_In in H. apply in_map_iff in H as (p & <- & _).
       apply passive_ok. split; simpl; auto.
-    - constructor.
+    - split; [constructor|reflexivity].
   Qed.
 
   (* A step that keeps the once state and the fields: only thread t changes. *)
@@ -200,15 +210,30 @@ Section OnceProofs.
     apply passive_ok. eapply thread_ok_passive; eauto.
   Qed.
 
-  Lemma trace_done_cons R ths ths' tr e :
-    post_ev e -> (forall t r, e = ERet t r -> r = R) ->
-    trace_ok ODone R ths tr -> trace_ok ODone R ths' (e :: tr).
+  (* in state ODone: one more event of a thread that is not dead *)
+  Lemma trace_done_cons R (ths : list (thread V)) t th th' tr e :
+    nth_error ths t = Some th -> th_pc th <> PDead ->
+    post_ev e -> (forall t0 r, e = ERet t0 r -> r = R) ->
+    trace_ok ODone R ths tr -> trace_ok ODone R (set_thread ths t th') (e :: tr).
   Proof.
-    intros He Hr (post & pre & w & f0 & -> & Hpost & Hpre & Hst & Hfin & HR & Hret).
-    exists (e :: post), pre, w, f0.
+    intros Hth Hnd He Hr (post & pre & w & f0 & e0 & -> & Hpost & Hpre & Hst & HR & Hret & Hcase).
+    exists (e :: post), pre, w, f0, e0.
     split; [reflexivity|]. split; [constructor; [exact He|exact Hpost]|].
-    split; [exact Hpre|]. split; [exact Hst|]. split; [exact Hfin|]. split; [exact HR|].
-    intros t0 r [E|Hin]; [eapply Hr; eauto|eauto].
+    split; [exact Hpre|]. split; [exact Hst|]. split; [exact HR|].
+    split; [intros t0 r [E|Hin]; [eapply Hr; eauto|eauto]|].
+    destruct Hcase as [H|(H1 & H2 & H3 & H4 & thw & Hw & Hd)]; [left; exact H|right].
+    split; [exact H1|]. split; [exact H2|]. split; [exact H3|]. split; [exact H4|].
+    exists thw. split; [|exact Hd]. rewrite nth_error_set_other; [exact Hw|].
+    intros ->. rewrite Hth in Hw. injection Hw as <-. contradiction.
+  Qed.
+
+  Lemma run_pc_quiet w f R tr e p :
+    (match e with EInv _ _ | EUser _ _ => True | _ => False end) -> run_pc w f R tr p -> run_pc w f R (e :: tr) p.
+  Proof.
+    intros He H. destruct p; simpl in *; auto.
+    - destruct H as (H1 & H2 & H3 & H4). destruct e; try contradiction; simpl; repeat split; auto;
+        constructor; auto; intros [].
+    - destruct e; try contradiction; simpl; exact H.
   Qed.
 
   Lemma step_inv c t c' : Inv c -> step c t = Some c' -> Inv c'.
@@ -219,50 +244,65 @@ Section OnceProofs.
     destruct c as [o R ths tr]; simpl in *.
     destruct th as [prog p rets]; simpl in *.
     unfold thread_ok in Hok; simpl in Hok. destruct Hok as (Hpc & Hrets & Hall).
-    destruct p as [|f|f k|res i|acc].
+    destruct p as [|f|f k|res i|acc|].
     - (* PIdle: invoke *)
       destruct prog as [|f rest]; [discriminate|]. injection Hs as <-.
-      constructor; simpl; auto.
+      constructor; simpl; [exact HL| |].
       + eapply threads_set; eauto. unfold thread_ok; simpl. auto.
       + destruct o as [|w|]; simpl in *.
-        * constructor; [exact I|exact HTr].
+        * destruct HTr as (HTr & HR). split; [constructor; [exact I|exact HTr]|exact HR].
         * destruct HTr as (Hpre & f0 & thw & Hst & Hw & Hpcw). split; [constructor; [exact I|exact Hpre]|].
-          exists f0, thw. split; [exact Hst|]. split; [|exact Hpcw].
-          rewrite nth_error_set_other; [exact Hw|].
-          intros ->. rewrite Hth in Hw. injection Hw as <-. simpl in Hpcw. exact Hpcw.
-        * eapply (trace_done_cons R ths ths); [exact I|intros ? ? E; discriminate E|exact HTr].
+          exists f0, thw. split; [exact Hst|].
+          assert (t <> w) as N.
+          { intros ->. rewrite Hth in Hw. injection Hw as <-. simpl in Hpcw. exact Hpcw. }
+          split; [rewrite nth_error_set_other by congruence; exact Hw|].
+          apply run_pc_quiet; [exact I|exact Hpcw].
+        * eapply (trace_done_cons R ths t _ _ tr _ Hth); [simpl; discriminate|exact I|intros ? ? E; discriminate E|exact HTr].
     - (* PEnter: once.Do *)
       destruct o as [|w|]; simpl in *; [|discriminate|]; injection Hs as <-.
       + (* NotStarted -> Running t *)
-        constructor; simpl; auto.
+        destruct HTr as (HTr & HR).
+        constructor; simpl; [exact HL| |].
         * eapply threads_set_change; eauto; try congruence.
           unfold thread_ok; simpl. repeat split; auto. intros _. apply Hrets. congruence.
         * destruct (inv_only _ HTr) as (S0 & F0 & P0). split; [constructor; [exact I|exact P0]|].
           eexists f, _. rewrite S0. split; [reflexivity|]. split; [eapply nth_error_set_same; eauto|].
-          simpl. auto.
+          simpl. split; [reflexivity|]. split; [exact F0|]. split; [exact HR|].
+          constructor; [intros []|]. clear -HTr. induction HTr as [|e l He _ IH]; constructor; auto.
+          destruct e; try contradiction. intros [].
       + (* ODone -> PRead [] *)
-        constructor; simpl; auto.
+        constructor; simpl; [exact HL| |].
         * eapply threads_set; eauto. unfold thread_ok; simpl. auto.
-        * eapply (trace_done_cons R ths ths); [exact I|intros ? ? E; discriminate E|exact HTr].
+        * eapply (trace_done_cons R ths t _ _ tr _ Hth); [simpl; discriminate|exact I|intros ? ? E; discriminate E|exact HTr].
     - (* PRun *)
       subst o. simpl in HTr. destruct HTr as (Hpre & f0 & thw & Hst & Hw & Hpcw).
-      rewrite Hth in Hw. injection Hw as <-. simpl in Hpcw. destruct Hpcw as (-> & Hfin).
-      destruct k as [|k]; injection Hs as <-.
-      + (* f returns *)
-        constructor; simpl; auto.
-        * eapply threads_set; eauto. unfold thread_ok; simpl. repeat split; auto; lia.
-        * split; [constructor; [exact I|exact Hpre]|].
-          eexists f0, _. split; [exact Hst|]. split; [eapply nth_error_set_same; eauto|].
-          simpl. rewrite Hfin. auto.
+      rewrite Hth in Hw. injection Hw as <-. simpl in Hpcw. destruct Hpcw as (-> & Hfin & HR & Hnw).
+      destruct k as [|k].
+      + destruct (f_aborts f0) eqn:Hab; injection Hs as <-.
+        * (* f panics or calls Goexit: the Once is consumed, nothing was written *)
+          constructor; simpl; [exact HL| |].
+          -- eapply threads_set_change; eauto; try congruence.
+             unfold thread_ok; simpl. repeat split; auto; try (rewrite Hrets by congruence; constructor).
+          -- exists [], tr, t, f0, (EAbort t). split; [reflexivity|]. split; [constructor|]. split; [exact Hpre|].
+             split; [exact Hst|]. split; [unfold Once.outcome_tuple; rewrite Hab; exact HR|].
+             split; [intros ? ? []|]. right. split; [reflexivity|]. split; [exact Hab|]. split; [exact Hfin|].
+             split; [exact Hnw|]. eexists. split; [eapply nth_error_set_same; eauto|reflexivity].
+        * (* f returns *)
+          constructor; simpl; [exact HL| |].
+          -- eapply threads_set; eauto. unfold thread_ok; simpl. repeat split; auto; lia.
+          -- split; [constructor; [exact I|exact Hpre]|].
+             eexists f0, _. split; [exact Hst|]. split; [eapply nth_error_set_same; eauto|].
+             simpl. rewrite Hfin. auto.
       + (* one user step *)
-        constructor; simpl; auto.
+        injection Hs as <-.
+        constructor; simpl; [exact HL| |].
         * eapply threads_set; eauto. unfold thread_ok; simpl. auto.
         * split; [constructor; [exact I|exact Hpre]|].
           eexists f0, _. split; [exact Hst|]. split; [eapply nth_error_set_same; eauto|].
-          simpl. auto.
+          apply (run_pc_quiet t f0 R tr (EUser t k) (PRun f0 k)); [exact I|]. simpl. auto.
     - (* PWrite *)
       destruct Hpc as (-> & Hi & Hw). simpl in HTr. destruct HTr as (Hpre & f0 & thw & Hst & Hw' & Hpcw).
-      rewrite Hth in Hw'. injection Hw' as <-. simpl in Hpcw. destruct Hpcw as (-> & Hfin).
+      rewrite Hth in Hw'. injection Hw' as <-. simpl in Hpcw. destruct Hpcw as (-> & Hfin & Hab).
       destruct (i <? arity) eqn:Hlt; injection Hs as <-.
       + (* write field i *)
         apply Nat.ltb_lt in Hlt.
@@ -280,31 +320,35 @@ Section OnceProofs.
       + (* once.Do returns: ODone *)
         apply Nat.ltb_ge in Hlt. assert (i = arity) as -> by lia.
         assert (HRt : R = tuple (f_res f0)) by (apply eq_tuple; auto).
-        constructor; simpl; auto.
+        constructor; simpl; [exact HL| |].
         * eapply threads_set_change; eauto; try congruence.
           unfold thread_ok; simpl. repeat split; auto; try (rewrite Hrets by congruence; constructor).
-        * exists [], tr, t, f0. repeat split; auto; try (intros t0 r []).
+        * exists [], tr, t, f0, (EDone t). split; [reflexivity|]. split; [constructor|]. split; [exact Hpre|].
+          split; [exact Hst|]. split; [unfold Once.outcome_tuple; rewrite Hab; exact HRt|].
+          split; [intros ? ? []|]. left. auto.
     - (* PRead *)
       destruct Hpc as (-> & Hacc). simpl in HTr.
       destruct (length acc <? arity) eqn:Hlt; injection Hs as <-.
       + (* read one field *)
         apply Nat.ltb_lt in Hlt.
-        constructor; simpl; auto.
+        constructor; simpl; [exact HL| |].
         * eapply threads_set; eauto. unfold thread_ok; simpl. repeat split; auto.
           rewrite app_length. simpl. rewrite Nat.add_1_r. rewrite <- firstn_snoc_nth by lia.
           rewrite <- Hacc. reflexivity.
-        * eapply (trace_done_cons R ths ths); [exact I|intros ? ? E; discriminate E|exact HTr].
+        * eapply (trace_done_cons R ths t _ _ tr _ Hth); [simpl; discriminate|exact I|intros ? ? E; discriminate E|exact HTr].
       + (* return *)
         apply Nat.ltb_ge in Hlt.
         assert (Hacc' : acc = R).
         { assert (length acc <= length R).
           { rewrite Hacc at 1. rewrite firstn_length. lia. }
           rewrite Hacc. apply firstn_all2. lia. }
-        constructor; simpl; auto.
+        constructor; simpl; [exact HL| |].
         * eapply threads_set; eauto. unfold thread_ok; simpl. repeat split; auto.
           -- congruence.
           -- apply Forall_app. split; [exact Hall|]. constructor; [exact Hacc'|constructor].
-        * eapply (trace_done_cons R ths ths); [exact I| |exact HTr]. intros t0 r E. injection E as _ <-. exact Hacc'.
+        * eapply (trace_done_cons R ths t _ _ tr _ Hth); [simpl; discriminate|exact I| |exact HTr].
+          intros t0 r E. injection E as _ <-. exact Hacc'.
+    - discriminate.
   Qed.
 
   Lemma run_inv s : forall c, Inv c -> Inv (run c s).
@@ -318,51 +362,71 @@ Section OnceProofs.
 
   (* ---- consequences of the invariant ---- *)
 
+  Lemma fins_single (e : event V) : fins [e] = match e with EFin t r => [(t, r)] | _ => @nil (tid * list V) end.
+  Proof. destruct e; reflexivity. Qed.
+
+  (* the shape of the trace once the Once is done *)
+  Lemma inv_done c : Inv c -> c_once c = ODone ->
+    exists w f, starts (c_trace c) = [(w, f)] /\
+      fins (c_trace c) = (if f_aborts f then [] else [(w, f_res f)]) /\
+      c_R c = outcome_tuple f /\ (forall t r, In (ERet t r) (c_trace c) -> r = outcome_tuple f) /\
+      (if f_aborts f then In (EAbort w) (c_trace c) /\ (forall e, In e (c_trace c) -> ~ is_write e) /\
+                          (exists th, nth_error (c_threads c) w = Some th /\ th_pc th = PDead)
+       else In (EDone w) (c_trace c)).
+  Proof.
+    intros [_ _ HTr] Ho. rewrite Ho in HTr. simpl in HTr.
+    destruct HTr as (post & pre & w & f & e & -> & Hpost & Hpre & Hst & HR & Hret & Hcase).
+    destruct (post_only _ Hpost) as (S0 & F0 & Hpw).
+    assert (Hrets : forall t r, In (ERet t r) (post ++ e :: pre) -> r = outcome_tuple f).
+    { intros t r Hin. apply in_app_iff in Hin as [Hin|[E|Hin]].
+      - rewrite <- HR. eauto.
+      - destruct Hcase as [(-> & _)|(-> & _)]; discriminate.
+      - rewrite Forall_forall in Hpre. destruct (Hpre _ Hin). }
+    exists w, f. rewrite starts_app, fins_app. simpl.
+    destruct Hcase as [(-> & Hab & Hfin)|(-> & Hab & Hfin & Hnw & Hdead)]; rewrite Hab; simpl;
+      rewrite S0, F0, Hst, Hfin; simpl.
+    - repeat split; auto. apply in_app_iff. right. left. reflexivity.
+    - split; [reflexivity|]. split; [reflexivity|]. split; [exact HR|]. split; [exact Hrets|].
+      split; [apply in_app_iff; right; left; reflexivity|]. split; [|exact Hdead].
+      intros e Hin. apply in_app_iff in Hin as [Hin|[<-|Hin]].
+      + intro Hw. apply (Hpw _ Hin). destruct e; try contradiction. exact I.
+      + intros [].
+      + rewrite Forall_forall in Hnw. apply Hnw. exact Hin.
+  Qed.
+
   Lemma inv_starts_le1 c : Inv c -> length (starts (c_trace c)) <= 1.
   Proof.
-    intros [_ _ HTr]. destruct (c_once c); simpl in HTr.
-    - destruct (inv_only _ HTr) as (-> & _). simpl. lia.
-    - destruct HTr as (_ & f & th & -> & _). simpl. lia.
-    - destruct HTr as (post & pre & w & f & -> & Hpost & _ & Hst & _).
-      rewrite starts_app. simpl. rewrite Hst. destruct (post_only _ Hpost) as (-> & _). simpl. lia.
+    intros HI. destruct (c_once c) eqn:Ho.
+    - destruct HI as [_ _ HTr]. rewrite Ho in HTr. destruct HTr as (HTr & _).
+      destruct (inv_only _ HTr) as (-> & _). simpl. lia.
+    - destruct HI as [_ _ HTr]. rewrite Ho in HTr. destruct HTr as (_ & f & th & -> & _). simpl. lia.
+    - destruct (inv_done _ HI Ho) as (w & f & -> & _). simpl. lia.
   Qed.
 
   Lemma inv_ret_done c t r : Inv c -> In (ERet t r) (c_trace c) -> c_once c = ODone.
   Proof.
     intros [_ _ HTr] Hin. destruct (c_once c); simpl in HTr; auto; exfalso.
-    - rewrite Forall_forall in HTr. apply (HTr _ Hin).
+    - destruct HTr as (HTr & _). rewrite Forall_forall in HTr. apply (HTr _ Hin).
     - destruct HTr as (HP & _). rewrite Forall_forall in HP. apply (HP _ Hin).
   Qed.
 
-  Lemma inv_done c : Inv c -> c_once c = ODone ->
-    exists w f, starts (c_trace c) = [(w, f)] /\ fins (c_trace c) = [(w, f_res f)] /\
-      c_R c = tuple (f_res f) /\ forall t r, In (ERet t r) (c_trace c) -> r = tuple (f_res f).
-  Proof.
-    intros [_ _ HTr] Ho. rewrite Ho in HTr. simpl in HTr.
-    destruct HTr as (post & pre & w & f & -> & Hpost & Hpre & Hst & Hfin & HR & Hret).
-    destruct (post_only _ Hpost) as (S0 & F0 & _).
-    exists w, f. rewrite starts_app, fins_app. simpl. rewrite S0, F0, Hst, Hfin. repeat split; auto.
-    intros t r Hin. apply in_app_iff in Hin as [Hin|[E|Hin]].
-    - rewrite <- HR. eauto.
-    - discriminate.
-    - rewrite Forall_forall in Hpre. destruct (Hpre _ Hin).
-  Qed.
-
-  (* exactly once *)
+  (* exactly once: at most one start; completions only of the started function, none if it aborted *)
   Theorem exactly_once progs s :
     let tr := c_trace (run (init progs) s) in
     length (starts tr) <= 1 /\ length (fins tr) <= length (starts tr) /\
-    ((exists t r, In (ERet t r) tr) -> exists w f, starts tr = [(w, f)] /\ fins tr = [(w, f_res f)]).
+    ((exists t r, In (ERet t r) tr) ->
+       exists w f, starts tr = [(w, f)] /\ fins tr = (if f_aborts f then [] else [(w, f_res f)])).
   Proof.
     intro tr. pose proof (reach_inv progs s) as HI. fold tr. split; [apply inv_starts_le1; exact HI|]. split.
-    - destruct HI as [_ _ HTr]. fold tr in HTr. destruct (c_once (run (init progs) s)); simpl in HTr.
-      + destruct (inv_only _ HTr) as (-> & -> & _). simpl. lia.
-      + destruct HTr as (_ & f & th & -> & _ & Hpc). destruct (th_pc th); try contradiction.
-        * destruct Hpc as (_ & ->). simpl. lia.
-        * destruct Hpc as (_ & ->). simpl. lia.
-      + destruct HTr as (post & pre & w & f & -> & Hpost & _ & Hst & Hfin & _).
-        destruct (post_only _ Hpost) as (S0 & F0 & _).
-        rewrite starts_app, fins_app. simpl. rewrite S0, F0, Hst, Hfin. simpl. lia.
+    - destruct (c_once (run (init progs) s)) eqn:Ho.
+      + destruct HI as [_ _ HTr]. rewrite Ho in HTr. destruct HTr as (HTr & _). fold tr in HTr.
+        destruct (inv_only _ HTr) as (-> & -> & _). simpl. lia.
+      + destruct HI as [_ _ HTr]. rewrite Ho in HTr. fold tr in HTr.
+        destruct HTr as (_ & f & th & -> & _ & Hpc). destruct (th_pc th); try contradiction.
+        * destruct Hpc as (_ & -> & _). simpl. lia.
+        * destruct Hpc as (_ & -> & _). simpl. lia.
+      + destruct (inv_done _ HI Ho) as (w & f & H1 & H2 & _). fold tr in H1, H2. rewrite H1, H2.
+        destruct (f_aborts f); simpl; lia.
     - intros (t & r & Hin). destruct (inv_done _ HI (inv_ret_done _ _ _ HI Hin)) as (w & f & H1 & H2 & _).
       exists w, f. auto.
   Qed.
@@ -378,15 +442,16 @@ Section OnceProofs.
     apply IH; clear IH.
     - unfold Once.step in E. destruct (nth_error (c_threads c) t0) as [th|] eqn:Hth; [|discriminate].
       intros t f.
-      destruct (th_pc th) as [|f0|f0 [|k]|res i|acc] eqn:Hpc.
+      destruct (th_pc th) as [|f0|f0 [|k]|res i|acc|] eqn:Hpc.
       + destruct (th_prog th); [discriminate|]. injection E as <-. simpl. intro H. right. auto.
       + destruct (c_once c); [|discriminate|]; injection E as <-; simpl.
         * intros [E|H]; [injection E as <- <-; right; eapply H2; eauto|right; auto].
         * intro H. right. auto.
-      + injection E as <-. simpl. intro H. right. auto.
+      + destruct (f_aborts f0); injection E as <-; simpl; intro H; right; auto.
       + injection E as <-. simpl. intro H. right. auto.
       + destruct (i <? arity); injection E as <-; simpl; intro H; right; auto.
       + destruct (length acc <? arity); injection E as <-; simpl; intro H; right; auto.
+      + discriminate.
     - unfold Once.step in E. destruct (nth_error (c_threads c) t0) as [th|] eqn:Hth; [|discriminate].
       assert (Hgen : forall o R th' e, (forall f, th_pc th' = PEnter f -> e = EInv t0 f \/ th_pc th = PEnter f) ->
                 forall t th1 f, nth_error (set_thread (c_threads c) t0 th') t = Some th1 -> th_pc th1 = PEnter f ->
@@ -395,13 +460,14 @@ Section OnceProofs.
         destruct (nth_error_set_inv _ _ _ _ _ _ Hth Hn) as [(-> & ->)|(N & Hn')].
         - destruct (He _ Hp) as [->|Hp']; [left; reflexivity|right; eapply H2; eauto].
         - right. eapply H2; eauto. }
-      destruct (th_pc th) as [|f0|f0 [|k]|res i|acc] eqn:Hpc.
+      destruct (th_pc th) as [|f0|f0 [|k]|res i|acc|] eqn:Hpc.
       + destruct (th_prog th); [discriminate|]. injection E as <-. apply Hgen. simpl. intros f [= ->]. auto.
       + destruct (c_once c); [|discriminate|]; injection E as <-; apply Hgen; simpl; intros f; discriminate.
-      + injection E as <-. apply Hgen. simpl. discriminate.
+      + destruct (f_aborts f0); injection E as <-; apply Hgen; simpl; discriminate.
       + injection E as <-. apply Hgen. simpl. discriminate.
       + destruct (i <? arity); injection E as <-; apply Hgen; simpl; discriminate.
       + destruct (length acc <? arity); injection E as <-; apply Hgen; simpl; discriminate.
+      + discriminate.
   Qed.
 
   Theorem started_was_passed progs s t f :
@@ -412,24 +478,32 @@ Section OnceProofs.
     - simpl. intros t0 th f0 Hn Hp. apply nth_error_In in Hn. apply in_map_iff in Hn as (p & <- & _). discriminate.
   Qed.
 
+  Lemma outcome_normal f : f_aborts f = false -> outcome_tuple f = tuple (f_res f).
+  Proof. unfold Once.outcome_tuple. intros ->. reflexivity. Qed.
+  Lemma outcome_abort f : f_aborts f = true -> outcome_tuple f = zeros.
+  Proof. unfold Once.outcome_tuple. intros ->. reflexivity. Qed.
+
   (* same results *)
   Theorem same_results progs s t r :
     let c := run (init progs) s in
     In (ERet t r) (c_trace c) ->
-    exists w f, starts (c_trace c) = [(w, f)] /\ fins (c_trace c) = [(w, f_res f)] /\
-      r = tuple (f_res f) /\ (length (f_res f) = arity -> r = f_res f).
+    exists w f, starts (c_trace c) = [(w, f)] /\ fins (c_trace c) = (if f_aborts f then [] else [(w, f_res f)]) /\
+      r = outcome_tuple f /\
+      (f_aborts f = false -> r = tuple (f_res f) /\ (length (f_res f) = arity -> r = f_res f)) /\
+      (f_aborts f = true -> r = zeros).
   Proof.
     intros c Hin. pose proof (reach_inv progs s) as HI. fold c in HI.
-    destruct (inv_done _ HI (inv_ret_done _ _ _ HI Hin)) as (w & f & H1 & H2 & _ & H4).
-    exists w, f. split; [exact H1|]. split; [exact H2|]. split; [eapply H4; eauto|].
-    intro HL. rewrite (H4 _ _ Hin). apply tuple_exact. exact HL.
+    destruct (inv_done _ HI (inv_ret_done _ _ _ HI Hin)) as (w & f & H1 & H2 & _ & H4 & _).
+    exists w, f. split; [exact H1|]. split; [exact H2|]. split; [eapply H4; eauto|]. split.
+    - intro Hab. rewrite (H4 _ _ Hin), (outcome_normal _ Hab). split; [reflexivity|]. apply tuple_exact.
+    - intro Hab. rewrite (H4 _ _ Hin). apply outcome_abort. exact Hab.
   Qed.
 
   (* the tuples recorded per thread agree with the events, and with the fields *)
   Theorem rets_are_results progs s t th r :
     let c := run (init progs) s in
     nth_error (c_threads c) t = Some th -> In r (th_rets th) ->
-    c_once c = ODone /\ r = c_R c /\ exists w f, starts (c_trace c) = [(w, f)] /\ r = tuple (f_res f).
+    c_once c = ODone /\ r = c_R c /\ exists w f, starts (c_trace c) = [(w, f)] /\ r = outcome_tuple f.
   Proof.
     intros c Hn Hr. pose proof (reach_inv progs s) as HI. fold c in HI.
     destruct (inv_threads _ HI _ _ Hn) as (_ & H1 & H2).
@@ -440,32 +514,84 @@ Section OnceProofs.
     repeat split; auto. exists w, f. auto.
   Qed.
 
-  (* returns only after completion: in the (newest first) trace, everything
-     the invocation did lies before any response, nothing of it after *)
+  (* returns only after completion (or abort): in the (newest first) trace,
+     everything the invocation did lies before any response, nothing of it after *)
   Theorem returns_after_completion progs s later t r earlier :
     c_trace (run (init progs) s) = later ++ ERet t r :: earlier ->
-    (exists w f, In (EStart w f) earlier /\ In (EFin w (f_res f)) earlier /\ In (EDone w) earlier) /\
+    (exists w f, In (EStart w f) earlier /\
+       ((f_aborts f = false /\ In (EFin w (f_res f)) earlier /\ In (EDone w) earlier) \/
+        (f_aborts f = true /\ In (EAbort w) earlier))) /\
     (forall e, In e later -> ~ is_work e).
   Proof.
     intro E. pose proof (reach_inv progs s) as HI.
     assert (Hin : In (ERet t r) (c_trace (run (init progs) s))) by (rewrite E; apply in_app_iff; right; left; auto).
     pose proof (inv_ret_done _ _ _ HI Hin) as Ho.
     destruct HI as [_ _ HTr]. rewrite Ho in HTr. simpl in HTr.
-    destruct HTr as (post & pre & w & f & E' & Hpost & Hpre & Hst & Hfin & _).
+    destruct HTr as (post & pre & w & f & e & E' & Hpost & Hpre & Hst & _ & _ & Hcase).
     rewrite E in E'. apply app_cons_split in E' as [(_ & D & _)|[(m & -> & ->)|(m & -> & ->)]].
-    - discriminate.
+    - destruct Hcase as [(-> & _)|(-> & _)]; discriminate.
     - split.
       + assert (In (w, f) (starts pre)) as H1 by (rewrite Hst; left; auto).
-        assert (In (w, f_res f) (fins pre)) as H2 by (rewrite Hfin; left; auto).
         unfold starts in H1. apply in_flat_map in H1 as (e1 & I1 & M1).
-        unfold fins in H2. apply in_flat_map in H2 as (e2 & I2 & M2).
-        exists w, f. repeat split; apply in_app_iff; right.
-        * right. destruct e1; try destruct M1 as [M1|[]]; try contradiction. injection M1 as -> ->. exact I1.
-        * right. destruct e2; try destruct M2 as [M2|[]]; try contradiction. injection M2 as -> ->. exact I2.
-        * left. reflexivity.
+        assert (In (EStart w f) pre) as HS.
+        { destruct e1; try destruct M1 as [M1|[]]; try contradiction. injection M1 as -> ->. exact I1. }
+        exists w, f. split; [apply in_app_iff; right; right; exact HS|].
+        destruct Hcase as [(-> & Hab & Hfin)|(-> & Hab & _)].
+        * left. split; [exact Hab|].
+          assert (In (w, f_res f) (fins pre)) as H2 by (rewrite Hfin; left; auto).
+          unfold fins in H2. apply in_flat_map in H2 as (e2 & I2 & M2).
+          split; apply in_app_iff; right; [right|left; reflexivity].
+          destruct e2; try destruct M2 as [M2|[]]; try contradiction. injection M2 as -> ->. exact I2.
+        * right. split; [exact Hab|]. apply in_app_iff. right. left. reflexivity.
       + apply Forall_app in Hpost as (Hl & _). apply (post_only _ Hl).
     - exfalso. rewrite Forall_forall in Hpre.
       apply (Hpre (ERet t r)). apply in_app_iff. right. left. reflexivity.
+  Qed.
+
+  (* a function that panics or calls Goexit consumes the Once all the same:
+     nothing was ever written to the fields, they hold the zero values, every
+     response carries the zero values, no other function was or will be
+     started, and the aborting caller itself is gone *)
+  Theorem abort_consumes progs s w :
+    let c := run (init progs) s in
+    In (EAbort w) (c_trace c) ->
+    c_once c = ODone /\ c_R c = zeros /\
+    (exists f, starts (c_trace c) = [(w, f)] /\ f_aborts f = true) /\ fins (c_trace c) = [] /\
+    (forall e, In e (c_trace c) -> ~ is_write e) /\
+    (forall t r, In (ERet t r) (c_trace c) -> r = zeros) /\
+    (exists th, nth_error (c_threads c) w = Some th /\ th_pc th = PDead).
+  Proof.
+    intros c Hin. pose proof (reach_inv progs s) as HI. fold c in HI.
+    assert (Ho : c_once c = ODone).
+    { destruct HI as [_ _ HTr]. destruct (c_once c); simpl in HTr; auto; exfalso.
+      - destruct HTr as (HTr & _). rewrite Forall_forall in HTr. apply (HTr _ Hin).
+      - destruct HTr as (HP & _). rewrite Forall_forall in HP. apply (HP _ Hin). }
+    destruct (inv_done _ HI Ho) as (w' & f & H1 & H2 & H3 & H4 & H5).
+    destruct (f_aborts f) eqn:Hab.
+    - destruct H5 as (Hina & Hnw & Hdead).
+      assert (w' = w) as ->.
+      { (* only one abort event: the one of the thread that started *)
+        destruct HI as [_ _ HTr]. rewrite Ho in HTr. simpl in HTr.
+        destruct HTr as (post & pre & w0 & f0 & e & E & Hpost & Hpre & Hst & _ & _ & Hcase).
+        rewrite E in H1, Hin. destruct (post_only _ Hpost) as (S0 & _ & Hpw).
+        change (e :: pre) with ([e] ++ pre) in H1. rewrite !starts_app, S0, Hst in H1.
+        apply in_app_iff in Hin as [Hin|[Hin|Hin]].
+        - exfalso. apply (Hpw _ Hin). exact I.
+        - destruct Hcase as [(-> & _)|(-> & _)]; [discriminate|]. injection Hin as ->.
+          simpl in H1. injection H1 as -> _. reflexivity.
+        - rewrite Forall_forall in Hpre. destruct (Hpre _ Hin). }
+      split; [exact Ho|]. split; [rewrite H3; apply outcome_abort; exact Hab|].
+      split; [exists f; auto|]. split; [exact H2|]. split; [exact Hnw|].
+      split; [intros t r Hr; rewrite (H4 _ _ Hr); apply outcome_abort; exact Hab|exact Hdead].
+    - exfalso. destruct HI as [_ _ HTr]. rewrite Ho in HTr. simpl in HTr.
+      destruct HTr as (post & pre & w0 & f0 & e & E & Hpost & Hpre & Hst & _ & _ & Hcase).
+      rewrite E in H1, Hin. destruct (post_only _ Hpost) as (S0 & _ & Hpw).
+      change (e :: pre) with ([e] ++ pre) in H1. rewrite !starts_app, S0, Hst in H1.
+      apply in_app_iff in Hin as [Hin|[Hin|Hin]].
+      + apply (Hpw _ Hin). exact I.
+      + destruct Hcase as [(-> & _)|(-> & Hab0 & _)]; [discriminate|].
+        simpl in H1. injection H1 as E1 E2. subst. congruence.
+      + rewrite Forall_forall in Hpre. destruct (Hpre _ Hin).
   Qed.
 
   (* lock discipline: plain writes only while the writer owns Running, plain
@@ -478,7 +604,7 @@ Section OnceProofs.
     intros c Ha. pose proof (reach_inv progs s) as HI. fold c in HI.
     unfold Once.next_access in Ha. destruct (nth_error (c_threads c) t) as [th|] eqn:Hn; [|discriminate].
     destruct (inv_threads _ HI _ _ Hn) as (Hpc & _).
-    destruct (th_pc th) as [|f|f k|res i|acc]; try discriminate.
+    destruct (th_pc th) as [|f|f k|res i|acc|]; try discriminate.
     - destruct (i <? arity) eqn:L; [|discriminate]. injection Ha as <-. apply Nat.ltb_lt in L. destruct Hpc as (-> & _). auto.
     - destruct (length acc <? arity) eqn:L; [|discriminate]. injection Ha as <-. apply Nat.ltb_lt in L. destruct Hpc as (-> & _). auto.
   Qed.
@@ -495,7 +621,25 @@ Section OnceProofs.
     exists i, j. auto.
   Qed.
 
-  (* progress: the machine never deadlocks before every call has returned *)
+  Lemma threads_done_dec (ths : list (thread V)) :
+    (forall t th, nth_error ths t = Some th -> th_pc th = PDead \/ (th_pc th = PIdle /\ th_prog th = [])) \/
+    exists t th, nth_error ths t = Some th /\ ~ (th_pc th = PDead \/ (th_pc th = PIdle /\ th_prog th = [])).
+  Proof.
+    induction ths as [|x r [IH|(t & th & Hn & Hx)]].
+    - left; intros [|t] th H; discriminate.
+    - destruct x as [p q rs].
+      assert (Dx : (q = PDead \/ (q = PIdle /\ p = [])) \/ ~ (q = PDead \/ (q = PIdle /\ p = []))).
+      { destruct q; try (right; intros [A|(A & B)]; discriminate); [|left; left; reflexivity].
+        destruct p; [left; right; auto|right; intros [A|(A & B)]; discriminate]. }
+      destruct Dx as [Dx|Dx].
+      + left. intros [|t] th H; simpl in H; [injection H as <-; exact Dx|eauto].
+      + right. exists 0. eexists. split; [reflexivity|exact Dx].
+    - right; exists (S t), th; auto.
+  Qed.
+
+  (* progress: the machine never deadlocks before every call has returned
+     (or its goroutine is gone); in particular callers waiting while the
+     function aborts are released *)
   Theorem no_deadlock progs s :
     let c := run (init progs) s in
     finished c \/ exists t c', step c t = Some c'.
@@ -505,22 +649,16 @@ Section OnceProofs.
     2:{ (* Running w: w itself can move *)
       right. exists w. destruct HI as [_ _ HTr]. rewrite Ho in HTr. simpl in HTr.
       destruct HTr as (_ & f & th & _ & Hn & Hpc). unfold Once.step. rewrite Hn.
-      destruct (th_pc th) as [|f0|f0 [|k]|res i|acc]; try contradiction; try (eexists; reflexivity).
-      destruct (i <? arity); eexists; reflexivity. }
-    all: assert (D : forall ths : list (thread V),
-             (forall t th, nth_error ths t = Some th -> th_pc th = PIdle /\ th_prog th = []) \/
-             exists t th, nth_error ths t = Some th /\ ~ (th_pc th = PIdle /\ th_prog th = []));
-      [ induction ths as [|x r [IH|(t & th & Hn & Hx)]];
-        [ left; intros [|t] th H; discriminate
-        | destruct x as [p q rs]; destruct q; [destruct p|..];
-          try (right; exists 0; eexists; split; [reflexivity|simpl; intros (A & B); discriminate]);
-          left; intros [|t] th H; simpl in H; [injection H as <-; auto|eauto]
-        | right; exists (S t), th; auto ] | ].
-    all: destruct (D (c_threads c)) as [F|(t & th & Hn & Hx)]; [left; exact F|right].
+      destruct (th_pc th) as [|f0|f0 [|k]|res i|acc|]; try contradiction; try (eexists; reflexivity).
+      - destruct (f_aborts f0); eexists; reflexivity.
+      - destruct (i <? arity); eexists; reflexivity. }
+    all: destruct (threads_done_dec (c_threads c)) as [F|(t & th & Hn & Hx)]; [left; exact F|right].
     all: exists t; unfold Once.step; rewrite Hn, Ho.
-    all: destruct (th_pc th) as [|f0|f0 [|k]|res i|acc] eqn:Hpc; try (eexists; reflexivity).
+    all: destruct (th_pc th) as [|f0|f0 [|k]|res i|acc|] eqn:Hpc; try (eexists; reflexivity).
     all: try (destruct (th_prog th) eqn:Hp; [exfalso; apply Hx; auto|eexists; reflexivity]).
+    all: try (destruct (f_aborts f0); eexists; reflexivity).
     all: try (destruct (i <? arity); eexists; reflexivity).
     all: try (destruct (length acc <? arity); eexists; reflexivity).
+    all: try (exfalso; apply Hx; auto).
   Qed.
 End OnceProofs.
